@@ -1,6 +1,6 @@
 (* Corr/CancelCorr.v — correspondence evaluator for Model/Cancel.v (component CN): the code of one frame and the program
    counters it executed from the moment Cancel() had been called (observed through CaptureState on the real interpreter).
-   The model: they are a prefix of the straight-line path from the first of them. *)
+   The model: they are a prefix of the straight-line path from the first of them, checked step by step ([follows]). *)
 From Verif Require Import Base.Bytes Model.Cancel Corr.Items.
 Open Scope N_scope.
 
@@ -16,7 +16,7 @@ Definition cn_check_items (c : list item) : option bool :=
   | [IB code; IL pcs] =>
     match items_nats pcs with
     | Some [] => Some true
-    | Some (p0 :: rest) => Some (is_prefix (p0 :: rest) (straight_from code p0))
+    | Some (p0 :: rest) => Some (follows code (p0 :: rest))      (* implied by the theorem: Proofs/Cancel_proofs.v prefix_follows *)
     | None => None
     end
   | _ => None
